@@ -359,11 +359,18 @@ type condFact struct {
 // If edges). SSA values are immutable, so facts never need invalidation.
 var factsCache = map[*ssa.Function]map[*ssa.BasicBlock]map[condFact]bool{}
 
+var factsBusy = map[*ssa.Function]bool{}
+
 func factsAt(fn *ssa.Function) map[*ssa.BasicBlock]map[condFact]bool {
 	if r, ok := factsCache[fn]; ok {
 		return r
 	}
+	if factsBusy[fn] {
+		return nil // recursive helper chain: no derived facts through it
+	}
+	factsBusy[fn] = true
 	r := factsAt1(fn)
+	factsBusy[fn] = false
 	factsCache[fn] = r
 	return r
 }
@@ -480,9 +487,172 @@ func deriveFacts(m map[condFact]bool) {
 		case *ssa.Call:
 			if e := trivialBoolHelper(x); e != nil {
 				addCondFactsTo(add, e, f.Pol)
+			} else if f.Pol {
+				for _, pf := range positiveFactsOfHelper(x) {
+					addCondFactsTo(add, pf.Cond, pf.Pol)
+				}
 			}
 		}
 	}
+}
+
+// positiveFactsOfHelper: for a call of a small, loop-free boolean helper of the same package
+// (`func same(r Route, m, p string) bool { return r.Method == m && r.Path == p }`), the conditions that
+// hold on EVERY path to a true answer, rewritten over the call's arguments.
+func positiveFactsOfHelper(call *ssa.Call) []condFact {
+	cal := call.Call.StaticCallee()
+	if cal == nil || cal.Blocks == nil || len(cal.Blocks) > 8 || cal.Pkg == nil || call.Parent() == nil || cal.Pkg != call.Parent().Pkg || cal == call.Parent() {
+		return nil
+	}
+	res := cal.Signature.Results()
+	if res.Len() != 1 {
+		return nil
+	}
+	if b, ok := res.At(0).Type().Underlying().(*types.Basic); !ok || b.Kind() != types.Bool {
+		return nil
+	}
+	for _, b := range cal.Blocks {
+		if reachableBlocks(b.Succs, nil)[b] {
+			return nil // loops are summarised elsewhere
+		}
+	}
+	facts := factsAt(cal)
+	var acc map[condFact]bool
+	merge := func(m map[condFact]bool) {
+		if acc == nil {
+			acc = m
+			return
+		}
+		for f := range acc {
+			if !m[f] {
+				delete(acc, f)
+			}
+		}
+	}
+	for _, b := range cal.Blocks {
+		ret, ok := b.Instrs[len(b.Instrs)-1].(*ssa.Return)
+		if !ok || len(ret.Results) != 1 {
+			continue
+		}
+		v := ret.Results[0]
+		if cb, isC := constBool(v); isC {
+			if cb {
+				m := map[condFact]bool{}
+				for f := range facts[b] {
+					m[f] = true
+				}
+				merge(m)
+			}
+			continue
+		}
+		if phi, ok := v.(*ssa.Phi); ok && phi.Block() == b {
+			for k, e := range phi.Edges {
+				if cb, isC := constBool(e); isC && !cb {
+					continue
+				}
+				pr := b.Preds[k]
+				m := map[condFact]bool{}
+				for f := range facts[pr] {
+					m[f] = true
+				}
+				if iff, isIf := pr.Instrs[len(pr.Instrs)-1].(*ssa.If); isIf && pr.Succs[0] != pr.Succs[1] {
+					addCondFacts(m, iff.Cond, pr.Succs[0] == b)
+				}
+				if _, isC := constBool(e); !isC {
+					addCondFacts(m, e, true)
+				}
+				merge(m)
+			}
+			continue
+		}
+		m := map[condFact]bool{}
+		for f := range facts[b] {
+			m[f] = true
+		}
+		addCondFacts(m, v, true)
+		merge(m)
+	}
+	if len(acc) == 0 {
+		return nil
+	}
+	// rewrite over the arguments
+	var out []condFact
+	for f := range acc {
+		if c := cloneOverArgs(call, cal, f.Cond, 0); c != nil {
+			out = append(out, condFact{c, f.Pol})
+		}
+	}
+	return out
+}
+
+// cloneOverArgs rewrites an expression of the callee over the call's arguments (parameters are
+// replaced by arguments; only comparisons, negations, field reads and constants are supported).
+func cloneOverArgs(call *ssa.Call, cal *ssa.Function, v ssa.Value, depth int) ssa.Value {
+	if depth > 5 {
+		return nil
+	}
+	for k, prm := range cal.Params {
+		if v == ssa.Value(prm) && k < len(call.Call.Args) {
+			return call.Call.Args[k]
+		}
+	}
+	switch x := v.(type) {
+	case *ssa.Const:
+		return x
+	case *ssa.BinOp:
+		a, b := cloneOverArgs(call, cal, x.X, depth+1), cloneOverArgs(call, cal, x.Y, depth+1)
+		if a == nil || b == nil {
+			return nil
+		}
+		return synthBinOp(x.Op, a, b)
+	case *ssa.UnOp:
+		if x.Op == token.NOT {
+			if a := cloneOverArgs(call, cal, x.X, depth+1); a != nil {
+				return &ssa.UnOp{Op: token.NOT, X: a}
+			}
+			return nil
+		}
+		if x.Op == token.MUL {
+			if fa, ok := x.X.(*ssa.FieldAddr); ok {
+				// field of a spilled value parameter: (&local).f where local holds the parameter -> arg.f
+				if a, isAlloc := fa.X.(*ssa.Alloc); isAlloc {
+					for _, r := range referrers(a) {
+						if st, ok := r.(*ssa.Store); ok && st.Addr == ssa.Value(a) {
+							if base := cloneOverArgs(call, cal, st.Val, depth+1); base != nil {
+								if _, isStruct := base.Type().Underlying().(*types.Struct); isStruct {
+									return &ssa.Field{X: base, Field: fa.Field}
+								}
+							}
+						}
+					}
+					return nil
+				}
+				if base := cloneOverArgs(call, cal, fa.X, depth+1); base != nil {
+					return &ssa.UnOp{Op: token.MUL, X: &ssa.FieldAddr{X: base, Field: fa.Field}}
+				}
+				return nil
+			}
+			// spilled value parameter: *alloc where alloc holds a parameter
+			if a, ok := x.X.(*ssa.Alloc); ok {
+				for _, r := range referrers(a) {
+					if st, ok := r.(*ssa.Store); ok && st.Addr == ssa.Value(a) {
+						return cloneOverArgs(call, cal, st.Val, depth+1)
+					}
+				}
+			}
+		}
+	case *ssa.Field:
+		if base := cloneOverArgs(call, cal, x.X, depth+1); base != nil {
+			return &ssa.Field{X: base, Field: x.Field}
+		}
+	case *ssa.FieldAddr:
+		if base := cloneOverArgs(call, cal, x.X, depth+1); base != nil {
+			return &ssa.FieldAddr{X: base, Field: x.Field}
+		}
+	case *ssa.ChangeType:
+		return cloneOverArgs(call, cal, x.X, depth+1)
+	}
+	return nil
 }
 
 func addCondFactsTo(add func(condFact), cond ssa.Value, pol bool) {
